@@ -352,6 +352,10 @@ func (r *c11Run) approve(a *c11Acct, v sdk.ValAddress) {
 	sp := r.accts[r.rng.IntN(len(r.accts))]
 	sh := r.shares(r.c.Ctx, a.addr, v).TruncateInt()
 	amt := sh.QuoRaw(int64(1 + r.rng.IntN(3)))
+	if r.rng.IntN(4) == 0 {
+		amt = sdkmath.ZeroInt() // taking an approval back
+		r.res.Count("approvals_of_zero", 1)
+	}
 	res := r.call(a, stakingPack("approveShares", v.String(), sp.addr, amt.BigInt()))
 	r.logf("%s approveShares %s spender=%s %s -> %s", a.label, v, sp.label, amt, short(res.VmError()))
 	if !res.Failed() {
